@@ -30,7 +30,8 @@ RULE = (
     "hkl / ub_matrix / time_at_sample targets, u_matrix, b_matrix, sample_rotation / pulse_time are "
     "always present. Facet geometry_origin adds origin='position' (as used by the package's tests) x "
     "6 beamline targets x scatter x the 2^10 subsets containing position; facet dataset repeats a "
-    "sample of the lattice on a two-item Dataset. Coordinate values come from one of 32 seeded value "
+    "sample of the lattice on Datasets with two items, one item and coordinates only; facet unaligned "
+    "repeats it with the energy coordinates (or all but the origin) flagged unaligned. Coordinate values come from one of 32 seeded value "
     "sets per configuration; every set is rejected unless all alternative routes to L1, L2, Ltotal "
     "and two_theta differ pairwise by > 2 %, the sample is off the origin, and every tof lies above "
     "1.25 t0 for every route to L1 / L2 (physical region of the inelastic formulas). Layout: data "
@@ -328,7 +329,17 @@ def _cases(lattice, tier, seed, per_stratum, container, salt, forced_bit=None):
     def build(key):
         s, mask = divmod(key, NMASK)
         vset = sets[((key * 2654435761 + salt) % 4294967296 >> 7) % len(sets)]
-        return make_case(lattice[s], mask, vset, container)
+        case = make_case(lattice[s], mask, vset, container)
+        pick = (key * 40503 + salt * 7) % 65536 >> 4
+        if container == "Dataset":
+            # two items, one item, or coordinates only (seeded/C02-s3)
+            case["container"] = ("Dataset", "Dataset", "Dataset-1-item", "Dataset-0-items")[pick % 4]
+        if container == "unaligned":
+            # coordinates that are present but flagged unaligned (what a previous convert leaves
+            # behind for its consumed inputs; seeded/C02-s4): energies only, or everything but the origin
+            case["container"] = "DataArray"
+            case["unaligned"] = ("energies", "energies", "all")[pick % 3]
+        return case
 
     return LazyCases(keys, build)
 
@@ -343,6 +354,10 @@ def enum_graph(tier, seed):
 
 def enum_dataset(tier, seed):
     return _cases(LATTICE, tier, seed, 440 if tier == "thorough" else 28, "Dataset", 3)
+
+
+def enum_unaligned(tier, seed):
+    return _cases(LATTICE, tier, seed, 440 if tier == "thorough" else 28, "unaligned", 5)
 
 
 def enum_geometry_origin(tier, seed):
@@ -385,8 +400,17 @@ def build(case):
     da = sc.DataArray(sc.ones(dims=["spectrum", dim], shape=[NS, NT], unit="counts"))
     for name, value in case["coords"].items():
         da.coords[name] = to_variable(name, value, origin)
+    ua = case.get("unaligned")
+    if ua:
+        for name in case["coords"]:
+            if (ua == "all" and name != origin) or name in M.ENERGY_INPUTS:
+                da.coords.set_aligned(name, False)
     if case["container"] == "Dataset":
         return sc.Dataset({"a": da, "b": da * 2.0})
+    if case["container"] == "Dataset-1-item":
+        return sc.Dataset({"a": da})
+    if case["container"] == "Dataset-0-items":
+        return sc.Dataset(coords=dict(da.coords))
     return da
 
 
@@ -475,7 +499,8 @@ def _classify(case, env, out):
     """Labels and the non-triviality rule (see RULE)."""
     origin, target, scatter = case["origin"], case["target"], case["scatter"]
     present = [n for n in M.COORDS if n in env]
-    labs = [f"origin:{origin}", f"target:{target}", f"scatter:{scatter}", f"model:{out.status}",
+    labs = [f"container:{case['container']}", f"unaligned:{case.get('unaligned', 'none')}",
+            f"origin:{origin}", f"target:{target}", f"scatter:{scatter}", f"model:{out.status}",
             f"mode:{out.mode}", f"present:{len(present) // 4 * 4}-{len(present) // 4 * 4 + 3}"]
     nontrivial = False
     if out.status == "ambiguous":
@@ -532,12 +557,15 @@ def check_convert(case):
         why = ("the energy mode is ambiguous" if out.status == "ambiguous"
                else f"{out.missing!r} is neither supplied nor derivable (mode {out.mode})")
         got = None
-        item = res["a"] if case["container"] == "Dataset" else res
+        item = res["a"] if case["container"] in ("Dataset", "Dataset-1-item") else res
         if target in item.coords:
             got = np.round(np.asarray(item.coords[target].values, dtype=float), 6).tolist()
         raise Violation("underivable-success",
                         f"{_describe(case)} returned {target}={got} although {why}")
-    items = [res["a"], res["b"]] if case["container"] == "Dataset" else [res]
+    items = {"Dataset": lambda: [res["a"], res["b"]], "Dataset-1-item": lambda: [res["a"]],
+             "Dataset-0-items": lambda: [res]}.get(case["container"], lambda: [res])()
+    if case["container"].startswith("Dataset") and sorted(res.keys()) != sorted(data.keys()):
+        raise Violation("items", f"{_describe(case)} returned items {sorted(res.keys())}")
     worst = 0.0
     for item in items:
         if target not in item.coords:
@@ -655,7 +683,11 @@ FACETS = [
               "transform_coords with it reproduces convert (result or failure)"),
     Facet("dataset", check_convert, enumerate=enum_dataset, exhaustive_in=(),
           quick=(2, 0), thorough=(16, 0), min_nontrivial=0.3,
-          doc="stratified sample of the lattice on a two-item Dataset (both items checked)"),
+          doc="stratified sample of the lattice on Datasets with 2 / 1 / 0 items (every item checked)"),
+    Facet("unaligned", check_convert, enumerate=enum_unaligned, exhaustive_in=(),
+          quick=(2, 0), thorough=(16, 0), min_nontrivial=0.3,
+          doc="stratified sample of the lattice with the energy coordinates (or all but the origin) present "
+              "but flagged unaligned, as a previous conversion leaves its inputs"),
     Facet("geometry_origin", check_convert, enumerate=enum_geometry_origin, exhaustive_in=("thorough",),
           quick=(2, 0), thorough=(16, 0), min_nontrivial=0.2,
           doc="origin='position' x beamline targets x scatter x 2^10 subsets containing position"),
